@@ -1,0 +1,51 @@
+//go:build verif
+
+package board
+
+import (
+	. "github.com/paulsonkoly/chess-3/chess"
+)
+
+// VerifSnapshot is a deep copy of every attribute of a Board, including the
+// unexported ones. Verification hook, compiled only with -tags verif.
+type VerifSnapshot struct {
+	SquaresToPiece [64]Piece
+	Pieces         [7]BitBoard
+	Colors         [2]BitBoard
+	Hashes         []Hash
+	FullMoves      int
+	STM            Color
+	EnPassant      Square
+	Castles        Castles
+	FiftyCnt       Depth
+}
+
+// VerifSnapshot returns a deep snapshot of b.
+func (b *Board) VerifSnapshot() VerifSnapshot {
+	hashes := make([]Hash, len(b.hashes))
+	copy(hashes, b.hashes)
+	return VerifSnapshot{
+		SquaresToPiece: b.SquaresToPiece,
+		Pieces:         b.Pieces,
+		Colors:         b.Colors,
+		Hashes:         hashes,
+		FullMoves:      b.fullMoves,
+		STM:            b.STM,
+		EnPassant:      b.EnPassant,
+		Castles:        b.Castles,
+		FiftyCnt:       b.FiftyCnt,
+	}
+}
+
+// VerifCalculateHash exposes the from-scratch hash computation.
+func (b *Board) VerifCalculateHash() Hash { return b.calculateHash() }
+
+// VerifZobrist exposes the Zobrist key tables.
+func VerifZobrist() (pieces [2][7][64]Hash, stm Hash, castling [4]Hash, epFile [8]Hash) {
+	return piecesRand, stmRand, castlingRand, epFileRand
+}
+
+// VerifReverse exposes the packed fields of a reversing token.
+func VerifReverse(r Reverse) (fifty Depth, castling Castles, ep Square, capture Piece) {
+	return r.fiftyCnt(), r.castlingChange(), r.enPassantChange(), r.capture()
+}
